@@ -236,7 +236,11 @@ def run_once(spec, balancer=None):
                     else:
                         arg2 = arg
                     stats = {}
-                    rows = bal.rebalance(arg2, output_dict=True, stats=stats)
+                    kw = {}
+                    if cfg.get("call_batch_size") is not None:
+                        # second route for the batch size: the per-call argument overrides the constructor's value
+                        kw["batch_size"] = cfg["call_batch_size"]
+                    rows = bal.rebalance(arg2, output_dict=True, stats=stats, **kw)
                 res["raw_len"] = len(rows)
                 res["rows"] = [norm_row(r, reaction_col) for r in rows]
                 if spec.get("extra_columns"):
